@@ -12,6 +12,34 @@ func init() {
 			Calls:   map[string]string{},
 			RetType: "IdxRes", Ok: ".ok %s", Err: ".err",
 		})
+		s += "\n/-- translated from object/list.go `ResolveIntSlice` (type assertions on the two bounds,\n    defaults, negative bounds relative to the end, the five range checks, in source order) -/\n"
+		s += translateFunc(repo, FuncCfg{
+			File: "object/list.go", Func: "ResolveIntSlice", Lean: "resolveIntSliceGo",
+			Params: map[string]string{"slice": "", "size": "Int", "sStart": "Option Val", "sStop": "Option Val"},
+			Order:  []string{"sStart", "sStop", "size"},
+			Calls:  map[string]string{},
+			RetType: "SliceResI", Ok: ".ok %s %s", Err: ".err .slice",
+			Named: []string{"start", "stop"}, ErrName: "err",
+			ErrBy:  map[string]string{"errz.TypeErrorf": ".err .type", "fmt.Errorf": ".err .slice"},
+			Sel:    map[string]string{"slice.Start": "sStart", "slice.Stop": "sStop"},
+			Field:  map[string]string{"value": "intValue"},
+			NotNil: "notNil", Assert: map[string]string{"*Int": "boundInt"}, AssertOk: "isOk",
+		})
+		s += "\n/-- translated from object/list.go `(*List).Insert`: the index arithmetic (negative index\n    relative to the end, clamped to 0) and the choice between the three slice operations of\n    the body; `n` stands for `int64(len(ls.items))` -/\n"
+		s += translateFunc(repo, FuncCfg{
+			File: "object/list.go", Func: "Insert", Lean: "insertAct", Recv: true,
+			Params: map[string]string{"index": "Int", "obj": "", "n": "Int"}, Order: []string{"index", "n"},
+			Calls:   map[string]string{},
+			RetType: "InsAct", Ok: "%s", Err: ".prepend",
+			Exprs:   map[string]string{"int64(len(ls.items))": "n"},
+			Acts: map[string]string{
+				"ls.items = append([]Object{obj}, ls.items...)": ".prepend",
+				"ls.items = append(ls.items, obj)":              ".append",
+				"ls.items = append(ls.items, nil)":              "(.shift index)",
+				"copy(ls.items[index+1:], ls.items[index:])":    "",
+				"ls.items[index] = obj":                         "",
+			},
+		})
 		s += "\nend Risor.Generated.C16\n"
 		return s
 	}})
